@@ -274,17 +274,25 @@ def candidates(fd, top_op):
     return out
 
 
+def _twin(name):
+    """start/end, first/last twins count as the same ingredient when looking for a near miss"""
+    n = name.split("::")[-1]
+    for a, b in (("start_", "X_"), ("end_", "X_"), ("first", "Y"), ("last", "Y")):
+        n = n.replace(a, b)
+    return n
+
+
 def decide(fd, pattern):
     """('ok', instr, text) | ('bad', instr, text) | ('undecided', None, text)"""
     pat = normalise(pattern)
-    need = pattern_calls(pat)
+    need = {_twin(x) for x in pattern_calls(pat)}
     cands = candidates(fd, pat[1])
     near = []
     for ins, e in cands:
         if match(pat, e):
             return "ok", ins, show(e)
-        have = calls_of(e)
-        if all(any(h.endswith(n) for h in have) for n in need):
+        have = {_twin(h) for h in calls_of(e)}
+        if all(n in have for n in need):
             near.append((ins, e))
     if near:
         return "bad", near[0][0], show(near[0][1])
@@ -292,7 +300,7 @@ def decide(fd, pattern):
     for ins in fd.body.instrs():
         if (ins.kind == "assign" and ins.rv_kind() == "binop") or (ins.kind == "call" and (CALL_OPS.get(ins.decl or "") or CALL_OPS.get(ins.callee or ""))):
             e = normalise(expr_of_instr(fd, ins))
-            if e[0] == "bin" and need and all(any(h.endswith(n) for h in calls_of(e)) for n in need):
+            if e[0] == "bin" and need and all(n in {_twin(h) for h in calls_of(e)} for n in need):
                 sub_ok = e[1] != pat[1]
                 if sub_ok:
                     return "bad", ins, show(e)
